@@ -115,17 +115,29 @@ def r_compliances_systems(ctx, model):
     f = model.func(ref)
     w = model.where(ref, f)
     systems = [None] + sorted(p.name for p in (REPO / "cij" / "data" / "constraints").iterdir() if p.is_file())
+    # without a crystal system (or triclinic) the tensor carries exactly the components the static table tabulates: any
+    # subset.  Scenarios: the orthotropic nine plus every one and every pair of the twelve coupling components, so that a
+    # shortcut keyed on which components are present (not on the system name) is folded on a table that defeats it
+    ORTHO = ["c11", "c22", "c33", "c12", "c13", "c23", "c44", "c55", "c66"]
+    extra = [k for k in SYMS21 if k not in ORTHO]
+    subsets = [tuple(ORTHO)] + [tuple(ORTHO) + (a,) for a in extra] + [tuple(ORTHO) + c for c in itertools.combinations(extra, 2)]
+    systems = systems + [("keys", ks) for ks in (subsets if getattr(ctx, "tier", "quick") == "thorough" else subsets[:1] + subsets[1:13] + subsets[13::3])]
     rnd = random.Random(20261004)
     n = 0
     for system in systems:
+        keyset = None
+        if isinstance(system, tuple):
+            keyset, system = system[1], None
         if system is None or system == "triclinic":
             free = None
         else:
             R = relation_matrix(parse_relations((REPO / "cij" / "data" / "constraints" / system).read_text()))
             ns = R.nullspace()
-        for trial in range(2):
+        for trial in range(2 if keyset is None else 1):
             n += 1
-            if system is None or system == "triclinic":
+            if keyset is not None:
+                vals = {k: sp.Rational(rnd.randint(5, 40) * rnd.choice((-1, 1)), 7) for k in keyset}
+            elif system is None or system == "triclinic":
                 vals = {k: sp.Rational(rnd.randint(-40, 40), 7) for k in SYMS21}
             else:
                 vec = sum((sp.Rational(rnd.randint(1, 60), rnd.randint(3, 11)) * v for v in ns), sp.zeros(21, 1))
@@ -152,7 +164,7 @@ def r_compliances_systems(ctx, model):
             try:
                 ev.call_def(f, model.mods["cij.core.calculator"], ref, [calc], {})
             except RaisedV as e:
-                ctx.violation(f"compliances.{system}.raises", w, "compliances are computed", f"raises {e.exc_name}", f"_calculate_compliances raises {e.exc_name} for system {system}")
+                ctx.violation(f"compliances.{system}.raises", w, "compliances are computed", f"raises {e.exc_name}", f"_calculate_compliances raises {e.exc_name} for system {system}" + (f" with components {','.join(keyset)}" if keyset else ""))
                 continue
             M = sp.zeros(6, 6)
             for k in keys:
@@ -170,10 +182,12 @@ def r_compliances_systems(ctx, model):
                             bad.append(f"s{i + 1}{j + 1} = {got}, exact 0")
                     elif got is None or sp.simplify(sp.sympify(got) - S[i, j]) != 0:
                         bad.append(f"s{i + 1}{j + 1} = {got}, exact {S[i, j]}")
-            ctx.check(not bad, f"system {system}, generic point {trial + 1}: stored compliances = inverse of the full stiffness", w,
+            label = f"system {system}" if keyset is None else "no system, tabulated components orthotropic nine" + "".join("+" + k for k in keyset[9:])
+            ctx.check(not bad, f"{label}, generic point {trial + 1}: stored compliances = inverse of the full stiffness", w,
                       expected="S = C^-1 on all 21 components", found="; ".join(bad[:3]) or "exact",
                       explanation=f"for crystal system {system} the reported compliances are not the inverse of the reported stiffness "
-                                  f"(a system-specific shortcut drops a coupling that this system does not forbid)", key=f"compliances.{system}")
+                                  f"(a shortcut drops a coupling that this system / this set of tabulated components does not forbid)",
+                      key=f"compliances.{system}" if keyset is None else "compliances.keys." + "+".join(keyset[9:]))
     ctx.extra["compliance_points"] = n
 
 
